@@ -3,3 +3,17 @@ if [ "$TIER" = thorough ]; then
     . "$VERIF/tools/san.sh"
     asan_leg C01
 fi
+if true; then
+    # who checks the checker: the reference clipper (and the implementation) against Qhull on general-position inputs.
+    # A disagreement between the two references is an oracle problem: reported as INCONCLUSIVE, never a verdict.
+    run_leg qhull "$VMON" C01 --tier "$TIER" --seed "$SEED" --verif-dir "$VERIF" --out-dir "$OUT" --leg qhull
+    if command -v python3-vt >/dev/null 2>&1; then
+        python3-vt "$VERIF/pyref/qhull_check.py" "$OUT/evidence/legs/C01.qhull_export.json" "$OUT/evidence/legs/C01.qhull_result.json"
+        qrc=$?
+        if [ $qrc -eq 3 ]; then echo "INCONCLUSIVE property=C01 the reference clipper and Qhull disagree on some exported cells (see $OUT/evidence/legs/C01.qhull_result.json)";
+        elif [ $qrc -ne 0 ]; then echo "INCONCLUSIVE property=C01 the Qhull cross-check could not run (exit $qrc)"; fi
+    else
+        echo "INCONCLUSIVE property=C01 python3-vt (scipy) not available: Qhull cross-check skipped"
+    fi
+    rm -f "$OUT/evidence/legs/C01.qhull_export.json"
+fi
